@@ -37,3 +37,16 @@ Lemma f1_selection_drops_after_target :
   x_reports (wbuild (mkConfig false false None (Some [116; 50]%N) None) f1k_tasks
                     (fun _ => NoFault) [1; 2]%N (mkWorld [] [])) = [(1, OSkip); (2, OSuccess)]%N.
 Proof. vm_compute. reflexivity. Qed.
+
+(* F24 (C04, known): "a task that needed to run and failed still needs to run in the next build" is
+   false when the function raised only after restoring its products to the recorded content: the
+   rows of the earlier successful run match again.  Task 1: 101 -> 111.  Build; 111 is edited by
+   hand; build with the function raising after its writes (FAIL, code 1); build: unchanged (3). *)
+Example failed_after_restoring_then_unchanged_refuted :
+  let t1 := mkTask 1 1 [101%N] [111%N] [] None false [] false 0%Z [] [] in
+  let cfg := mkConfig false false None None None in
+  map (fun o => match o with (x, r, l, _, _, _) => (x, r, l) end)
+      (run_hist [] [] [HSet 101 5; HBuild cfg [t1] [] []; HSet 111 77; HBuild cfg [t1] [(1%N, RaiseAfter)] [];
+                       HBuild cfg [t1] [] []])
+  = [(0, [(1, 0)], [2; 3]); (1, [(1, 1)], [2; 3]); (0, [(1, 3)], [])]%N.
+Proof. vm_compute. reflexivity. Qed.
